@@ -249,6 +249,50 @@ class Models:
             what = "is_empty" if c.endswith("is_empty") else "contains_crl_sign"
             st.events.append(("call", "key_usages." + what, (("ref", args[0]),)))
             return one(Z(z3.Bool("issuer_ku_" + what)))
+        # --- crypto back end (ring) as an uninterpreted environment: every signing call is recorded with its message
+        if re.match(r"^(ring::rand::)?SystemRandom::new$", c):
+            return one(Opaque("rng", "rng"))
+        m = re.match(r"^(?:ring::signature::|ring::rsa::)?(EcdsaKeyPair|Ed25519KeyPair|KeyPair)::sign$", c)
+        if m:
+            kind = {"EcdsaKeyPair": "Ec", "Ed25519KeyPair": "Ed", "KeyPair": "Rsa"}[m.group(1)]
+            msg = args[2] if kind == "Ec" else (args[1] if kind == "Ed" else args[3])
+            ok = z3.Bool(self.fresh_name("backend_ok")) if kind != "Ed" else z3.BoolVal(True)
+            st.events.append(("backend-sign", kind, msg, ok))
+            if kind == "Ed":
+                return one(Opaque("signature", "Ed-output"))
+            return one(Opaque("result", (ok, Opaque("signature", "Ec-output") if kind == "Ec" else UNIT, Opaque("error"))))
+        if re.match(r"^<dyn RemoteKeyPair.* as RemoteKeyPair>::sign$", c):
+            ok = z3.Bool(self.fresh_name("backend_ok"))
+            st.events.append(("backend-sign", "Remote", args[1], ok))
+            return one(Opaque("result", (ok, Opaque("vec", "Remote-output"), Opaque("error"))))
+        if re.match(r"^<\[u8\] as Index<.*>>::index$", c) or re.match(r"^core::slice::<impl \[u8\]>::(get|split_at|first|last)", c):
+            return one(Opaque("part-of", deref(args[0])))
+        m = re.match(r"^Result::<.*>::(unwrap_or_default|unwrap_or|unwrap_or_else|ok|unwrap|expect)(::<.*>)?$", c)
+        if m and isinstance(args[0], Opaque) and args[0].what == "result":
+            r = args[0]
+            out = []
+            s_bad = st.clone()
+            s_bad.pc.append(z3.Not(r.data[0]))
+            if s_bad.feasible() and m.group(1) not in ("unwrap", "expect"):
+                out.append((s_bad, Opaque("vec", "substitute-for-error")))
+            st.pc.append(r.data[0])
+            out.append((st, r.data[1]))
+            return out
+        if re.match(r"^<Result<.*> as ExternalError<.*>>::_err$", c):
+            return one(args[0])
+        if re.match(r"^<(ring::signature::)?Signature as AsRef<\[u8\]>>::as_ref$", c) or re.match(r"^<Vec<u8> as AsRef<\[u8\]>>::as_ref$", c):
+            return one(Opaque("bytes-of", deref(args[0])))
+        if re.match(r"^(ring_like::)?rsa_key_pair_public_modulus_len$", c):
+            return one(Z(z3.Int("rsa_modulus_len")))
+        if re.match(r"^std::vec::from_elem::<u8>$", c):
+            return one(Opaque("vec", ("zeroed", args[1])))
+        if re.match(r"^<Vec<u8> as DerefMut>::deref_mut$", c):
+            return one(Ref(args[0].cell))
+        if re.match(r"^Vec::<u8>::len$", c):
+            return one(Z(self.len_of(deref(args[0]))))
+        if re.match(r"^<&usize as Mul<usize>>::mul$", c) or re.match(r"^<usize as Mul<usize>>::mul$", c):
+            a, b = deref(args[0]), deref(args[1])
+            return one(Z(a.e * b.e))
         # --- python-level lists (vectors of enum values)
         if args and isinstance(deref(args[0]), ListV):
             lv = deref(args[0])
@@ -347,6 +391,17 @@ class Models:
             return self.writer_call(eng, m.group(1), m.group(2), args, st)
         return None
 
+    def len_of(self, v):
+        """length of an opaque byte container"""
+        v = deref(v)
+        if isinstance(v, Opaque) and v.what == "bytes-of":
+            return self.len_of(v.data)
+        if isinstance(v, Opaque) and v.what == "vec" and isinstance(v.data, tuple) and v.data[0] == "zeroed":
+            return v.data[1].e
+        if isinstance(v, Opaque) and isinstance(v.data, str):
+            return z3.Int("len_" + v.data)
+        raise Unsupported("length of " + repr(v)[:80])
+
     def opt_and_then(self, eng, args, st, flatten):
         opt, clo = args[0], args[1]
         out = []
@@ -409,6 +464,17 @@ class Models:
         if isinstance(a, Opaque):
             if a.what in ("tag", "oid-const", "str", "const"):
                 return (a.what, a.data)
+            if a.what in ("bytes-of", "vec", "signature", "msg"):
+                def desc(x):
+                    x = deref(x)
+                    if isinstance(x, Opaque):
+                        return f"{x.what}({desc(x.data)})" if x.data is not None else x.what
+                    if isinstance(x, tuple):
+                        return ",".join(desc(y) for y in x)
+                    if isinstance(x, Z):
+                        return str(x.e)
+                    return str(x)
+                return (a.what, desc(a))
             if a.what == "tag-context":
                 t = a.data
                 return ("tag-context", z3.simplify(t.e) if isinstance(t, Z) else str(t))
